@@ -59,7 +59,10 @@ class GRPCService:
         """
         # the provider is created once, and asked for each request: a token it hands out can expire
         if self._auth_provider is None:
-            self._auth_provider = AuthProvider.get_provider(self._config) or False
-        if self._auth_provider:
+            provider = AuthProvider.get_provider(self._config)
+            # False: we have looked, there is none. (By identity: a provider can be an object that is falsy - one that
+            # is also a mapping of its settings, one with a __len__ - and is asked all the same.)
+            self._auth_provider = provider if provider is not None else False
+        if self._auth_provider is not False:
             return self._auth_provider.provide()
         return []
